@@ -78,7 +78,8 @@ def reverse_iter_lines(file_obj, blocksize=DEFAULT_BLOCKSIZE, preseek=True, enco
         # BytesIO
         encoding = None
     else:
-        encoding = 'utf-8'
+        # a text-mode file: its lines are decoded with its own encoding
+        encoding = encoding or 'utf-8'
 
     # need orig_obj to keep alive otherwise __del__ on the TextWrapper will close the file
     orig_obj = file_obj
